@@ -20,7 +20,7 @@ fn build_set<const N: usize>(lay: &Value, detour: bool) -> Box<Cage<Set<Key, N>>
     let mut cage = Cage::new(Set::<Key, N>::new());
     let a = lay.as_array().unwrap();
     for e in a {
-        cage.m.insert(Key::new(e[0].as_u64().unwrap() as u8, e[1].as_u64().unwrap() as u8));
+        cage.m.insert(Key::new(e[0].as_u64().unwrap() as crate::elem::Cls, e[1].as_u64().unwrap() as u8));
     }
     if detour && a.len() < N {
         // a history: one more element came and went (the last slot: no reordering)
@@ -33,7 +33,7 @@ fn build_map<const N: usize>(lay: &Value, detour: bool) -> Box<Cage<Map<Key, Val
     let mut cage = Cage::new(Map::<Key, Val, N>::new());
     let a = lay.as_array().unwrap();
     for e in a {
-        cage.m.insert(Key::new(e[0].as_u64().unwrap() as u8, e[1].as_u64().unwrap() as u8), Val::new(e[2].as_u64().unwrap() as u8));
+        cage.m.insert(Key::new(e[0].as_u64().unwrap() as crate::elem::Cls, e[1].as_u64().unwrap() as u8), Val::new(e[2].as_u64().unwrap() as u8));
     }
     if detour && a.len() < N {
         cage.m.insert(Key::new(200, 3), Val::new(9));
